@@ -217,3 +217,5 @@ pub fn generate(out: &mut Out, tier: &str, seed: u64) {
 }
 
 pub const RULE: &str = "exhaustive at depth 1: texts of length 0..=5 (thorough ..=7) over 1-4 byte characters x every pair of cursors (BeginAligned 0..=7, EndAligned -7..=7: out-of-range, inverted, zero-width, positive end-aligned included) through annotate() with a TextSelector and through FindText::textselection; depth 2: four parents x every pair of cursors in -4..=4 through AnnotationSelector offsets and ResultTextSelection::textselection; depth 2-4: seeded random chains (80% valid); every accepted annotation is read back (range, text) and its offset reported in all four OffsetModes via Selector::offset_with_mode and re-resolved. Non-trivial = at least one level accepted; distinct = distinct request lines.";
+
+pub const EXHAUSTIVE: bool = true;
